@@ -5,28 +5,28 @@ One constructor of `Norm` per normalisation class, one `def` per C++ function th
 
 * `Norm.table`           any class that implements only `get_bin_efficiency` and inherits
                          `BinNormalisation::apply/undo(RelatedViewgrams&)`
-                         (src/recon_buildblock/BinNormalisation.cxx:90-121): `undo` multiplies by
+                         (src/recon_buildblock/BinNormalisation.cxx:91-120): `undo` multiplies by
                          `get_bin_efficiency(bin)`, `apply` divides by `std::max(1.E-20F, get_bin_efficiency(bin))`.
-* `Norm.calib`           `BinNormalisationWithCalibration` (src/include/stir/recon_buildblock/BinNormalisationWithCalibration.h:59,
-                         src/recon_buildblock/BinNormalisationWithCalibration.cxx:50-58):
+* `Norm.calib`           `BinNormalisationWithCalibration` (src/include/stir/recon_buildblock/BinNormalisationWithCalibration.h:66,
+                         src/recon_buildblock/BinNormalisationWithCalibration.cxx:57-65):
                          `get_bin_efficiency = get_uncalibrated_bin_efficiency / (calibration_factor * branching_ratio)`, apply/undo inherited.
 * `Norm.fromProjData`    `BinNormalisationFromProjData::{apply,undo,get_bin_efficiency}`
                          (src/recon_buildblock/BinNormalisationFromProjData.cxx:129-157): `apply` MULTIPLIES by the stored factor,
                          `undo` divides; the factor is looked up at timing position 0 unless the stored data are TOF;
                          `get_bin_efficiency` calls `error`.  `fromProjDataSetUp` transcribes the decision of `set_up` (:81-121).
-* `Norm.fromAtten`       `BinNormalisationFromAttenuationImage` (src/recon_buildblock/BinNormalisationFromAttenuationImage.cxx:55-97
-                         `post_processing`: image (cm^-1) `*= grid_spacing.x()/10`; :138-170 `apply`: forward project, `in_place_exp`,
-                         multiply; `undo`: divide; :172 `get_bin_efficiency` calls `error`).  The forward projection is
+* `Norm.fromAtten`       `BinNormalisationFromAttenuationImage` (src/recon_buildblock/BinNormalisationFromAttenuationImage.cxx:56-97
+                         `post_processing`: image (cm^-1) `*= grid_spacing.x()/10`; :139-170 `apply`: forward project, `in_place_exp`,
+                         multiply; `undo`: divide; :173 `get_bin_efficiency` calls `error`).  The forward projection is
                          `Σ_j a_bj · μ̃_j` with the matrix row `a_b.` given as data (rows are C03/C04's business); `E` is `exp`.
 * `Norm.fromComponents`  `BinNormalisationPETFromComponents` (src/recon_buildblock/BinNormalisationPETFromComponents.cxx:
                          `create_proj_data` :177-202, `apply` :205-222 with `divide(…, 0.F)` (src/include/stir/numerics/divide.inl),
                          `undo` :224-231, `get_bin_efficiency` :233-239, `is_trivial` flag computed in `set_up` :100-104).
                          The crystal pair of a bin and the symmetry expansion of the geometric factors are data (C01 / C20).
-* `Norm.chained`         `ChainedBinNormalisation::{apply,undo,get_bin_efficiency}` (src/recon_buildblock/ChainedBinNormalisation.cxx:92-183),
+* `Norm.chained`         `ChainedBinNormalisation::{apply,undo,get_bin_efficiency}` (src/recon_buildblock/ChainedBinNormalisation.cxx:91-98, :137-144, :186-190; constructor check :49-54),
                          `Norm.null` is a null `shared_ptr` member (skipped, efficiency 1).
 * `Norm.trivial`         `TrivialBinNormalisation` (src/include/stir/recon_buildblock/TrivialBinNormalisation.h).
 * `applyData`, `applyGroups`, … the whole-`ProjData` loops `BinNormalisation::apply/undo(ProjData&, symmetries)`
-                         (src/recon_buildblock/BinNormalisation.cxx:123-228): for every basic view/segment and TOF position get the
+                         (src/recon_buildblock/BinNormalisation.cxx:123-226): for every basic view/segment and TOF position get the
                          related viewgrams, normalise them, write them back.
 
 Numbers: the definitions are written once for a type `K` with `+ - * / 0 1 <`; the driver runs them at `K = Rat`
@@ -199,6 +199,10 @@ def chainCtorOk (cal1 cal2 : K) : Bool := !(decide (0 < cal1) && decide (0 < cal
     comparisons on (norm info, emission info made non-TOF if the norm is not TOF) -/
 def fromProjDataSetUp (equal ge tangMinEq tangMaxEq axialRangesEq : Bool) : Bool :=
   if equal then true else ge && tangMinEq && tangMaxEq && axialRangesEq
+
+/-- `BinNormalisation::check(const ProjDataInfo&)` (src/recon_buildblock/BinNormalisation.cxx:70-78), called by every
+    `apply`/`undo`: `error` unless `set_up` was called and the geometry of `set_up` is `>=` the geometry of the data -/
+def checkUse (alreadySetUp setUpGeometryGE : Bool) : Bool := alreadySetUp && setUpGeometryGE
 
 /-! ### whole data sets -/
 
